@@ -283,9 +283,6 @@ func (c *Config) expandEnvVars() {
 		c.IPK.Fields[k] = os.Expand(v, c.envMappingFunc)
 	}
 	c.IPK.Predepends = c.expandEnvVarsStringSlice(c.IPK.Predepends)
-
-	// RPM specific
-	c.RPM.Packager = os.Expand(c.RPM.Packager, c.envMappingFunc)
 }
 
 // Info contains information about a single package.
